@@ -558,7 +558,7 @@ func (*c04) CoqCase(ci, oi any) string {
 	case "opts":
 		return fmt.Sprintf("COpts %s %s", c04CoqOpts(c.Opts), c04CoqRes(obs))
 	case "parse":
-		return c04CoqParse(c.Parse, c04CoqRes(obs))
+		return c04CoqParse(c.Parse, c04CoqParseRes(obs))
 	case "mergemaps":
 		return fmt.Sprintf("CMergeMaps %s %s %s", hx.CoqValMap(c.A), hx.CoqValMap(c.B), c04CoqRes(obs))
 	case "tables":
